@@ -577,9 +577,6 @@ func (propC14) Check(t *testing.T, p *Plan, st *Stats) *Violation {
 		}
 		return nil
 	}
-	if o.Failed && o.Stdout != "" {
-		return viol("C14(i:no-partial-output)", "no output from a command that fails", fmt.Sprintf("%d bytes printed before the error %s", len(o.Stdout), clip(o.ErrText, 200)))
-	}
 	if len(observed) > 0 {
 		// (i) an observed fault must surface as an error.
 		if !o.Failed {
